@@ -166,6 +166,15 @@ static void share_elem1 (long idx) {
       r = hx_apply (s, "run", 4);
     } else if (!strcmp (e->fn, "clones")) { push_number (e->r); push_number (e->ord); r = hx_apply (s, "clones", 2); }
     else { push_number (e->ord); r = hx_apply (s, e->fn, 1); }
+    if (!strcmp (e->fn, "fpout") && r) {
+      /* the maker is destructed: run the deferred clean-up and a call_out sweep, then let the holder call the function pointer */
+      char r1[200]; snprintf (r1, sizeof r1, "%.190s", hx_canon_s (r));
+      hx_guard (do_rdo, 0);
+      hx_clock += 2; current_time = hx_clock; hx_guard (do_sweep, 0);
+      push_number (e->ord);
+      r = hx_apply (s, "fpout2", 1);
+      if (run == 0) vx_obs ("  step1 %s", r1);
+    }
     /* hx_apply saves its context after the arguments were pushed: on error they are still there (harness, not driver) */
     if (!r && sp > sp0) pop_n_elems ((size_t) (sp - sp0));
     if (run == 0) {
@@ -241,6 +250,9 @@ static int c06_share_main (int argc, char **argv) {
      * carry-over args), input_to, get_char, set_heart_beat, set_living_name, enable_commands, move_object, bind, a plain call, a bound
      * funptr, call_other, filter with extra args, clone, call_out+remove_call_out, notify_fail(function), all with ref-counted arguments */
     for (int kd = 0; kd < 18; kd++) add_share ("zombie", "arguments", 1, "self-destructed-caller", kd);
+    /* functional / anonymous function / local funptr / functional using a global, made by A (sole user of its program) and kept by B
+     * as is, after bind(f, B), as pending call_out argument, as add_action carry-over argument; A destructed + deferred clean-up; B calls it */
+    for (int kd = 0; kd < 16; kd++) add_share ("fpout", "funptr", 1, "holder-after-maker-is-freed", kd);
   }
   vm_elem_alarm_s = 600;
   fprintf (stderr, HNAME ": part=share scenarios=%ld\n", nshare);
